@@ -38,4 +38,4 @@ META = dict(
     technique="runtime monitoring: event-log checker (once, order, join-after-exit, count) + TSan/ASan/LSan + fault injection under schedule perturbation",
 )
 
-CFG["rule"] += (" " + 'Additions: finite join timeout / library clean-up that gives up / library re-init prelude; manual threads counted in and out through aws_thread_increment/decrement_unjoined_count by an owner thread; at-exit registration from inside aws_thread_call_once; a second thread calling join-all concurrently; stage tsanrel (-O2 under TSan).')
+CFG["rule"] += (" " + 'Additions: finite join timeout / library clean-up that gives up / library re-init prelude; manual threads counted in and out through aws_thread_increment/decrement_unjoined_count by an owner thread; at-exit registration from inside aws_thread_call_once; a second thread calling join-all concurrently; stage tsanrel (-O2 under TSan). In the asanh stage a quarter of the manual threads try to join themselves once their launch call has returned (refused by the library); the owner\'s later join must still wait for the function and the at-exit callbacks. (Not under ThreadSanitizer, whose join interceptor forgets a thread after a failed join.)')
